@@ -131,7 +131,7 @@ def dense(fn, in_tmpl, kind):
     for k in range(n):
         e = np.zeros(n)
         e[k] = 1.0
-        c = rflat(fn(runflat(in_tmpl, jnp.asarray(e), jnp)))
+        c = rflat(fn(J(runflat(in_tmpl, e))))       # unflatten in NumPy: no per-slice XLA compilation
         if cols and c.shape != cols[0].shape:
             raise Violation(kind + ":ragged_output", f"column {k} has {c.shape}, column 0 {cols[0].shape}")
         cols.append(c)
@@ -160,8 +160,8 @@ def jac_fd(fn, tmpl, x0, h=2.0 ** -17, dirs=None):
     dirs = np.eye(x0.size) if dirs is None else dirs
     for k in range(dirs.shape[1]):
         e = h * dirs[:, k]
-        fp = rflat(fn(runflat(tmpl, jnp.asarray(x0 + e), jnp)))
-        fm = rflat(fn(runflat(tmpl, jnp.asarray(x0 - e), jnp)))
+        fp = rflat(fn(J(runflat(tmpl, x0 + e))))
+        fm = rflat(fn(J(runflat(tmpl, x0 - e))))
         cols.append((fp - fm) / (2 * h))
     return np.array(cols).T
 
@@ -187,7 +187,7 @@ def lh_mats(lh, p, p_tmpl, vvec=None):
     if vvec is not None:
         # (real-)linearity: the matrix must reproduce the map on a generic vector
         v = np.resize(np.asarray(vvec, dtype=np.float64), n)
-        out = rflat(lh.metric(p, runflat(p_tmpl, jnp.asarray(v), jnp)))
+        out = rflat(lh.metric(p, J(runflat(p_tmpl, v))))
         close(out, m.M @ v, "metric_not_linear", tol=1e-10, scale=amax(m.M) * amax(v) * n)
     return m
 
@@ -1370,23 +1370,23 @@ def freeze_recipes(draw, tier):
 # ================================================================== registration
 _NT = "non-trivial = batched or pytree (Vector) data"
 SUBS = [
-    Sub(name="gaussian", check=check_gaussian, strategy=gaussian_recipes, quick=48, thorough=2000, shards=2, jax=True,
+    Sub(name="gaussian", check=check_gaussian, strategy=gaussian_recipes, quick=48, thorough=2000, shards=1, jax=True,
         rule=_NT + ", or dense Hermitian noise callables; noise given as None / array / diagonal callable / dense "
         "callable for cov_inv and std_inv, real and complex data"),
-    Sub(name="studentt", check=check_studentt, strategy=studentt_recipes, quick=36, thorough=1500, shards=2, jax=True,
+    Sub(name="studentt", check=check_studentt, strategy=studentt_recipes, quick=36, thorough=1500, shards=1, jax=True,
         rule=_NT + ", or per-datum dof, or dense noise callables"),
     Sub(name="poissonian", check=check_poissonian, strategy=poissonian_recipes, quick=30, thorough=1500, shards=1,
         jax=True, rule=_NT),
-    Sub(name="categorical", check=check_categorical, strategy=categorical_recipes, quick=40, thorough=2000, shards=2,
+    Sub(name="categorical", check=check_categorical, strategy=categorical_recipes, quick=40, thorough=2000, shards=1,
         jax=True, rule="non-trivial = more than one row of logits (batch) or Vector of logit arrays; axis -1 and 0"),
     Sub(name="vcgaussian", check=check_vcgaussian, strategy=vcgaussian_recipes, quick=30, thorough=1500, shards=2,
         jax=True, rule=_NT + "; real and complex data, primals as tuple and as Vector"),
-    Sub(name="vcstudentt", check=check_vcstudentt, strategy=vcstudentt_recipes, quick=24, thorough=1000, shards=2,
+    Sub(name="vcstudentt", check=check_vcstudentt, strategy=vcstudentt_recipes, quick=24, thorough=1000, shards=1,
         jax=True, rule=_NT + ", or per-datum dof"),
     Sub(name="ndvcgaussian", check=check_ndvcgaussian, strategy=ndvcgaussian_recipes, quick=30, thorough=1500,
         shards=3, jax=True,
         rule="non-trivial = batch of Gaussians or Vector of two leaves; d in 1..3, covariance and precision"),
-    Sub(name="amend", check=check_amend, strategy=amend_recipes, quick=45, thorough=2000, shards=3, jax=True,
+    Sub(name="amend", check=check_amend, strategy=amend_recipes, quick=45, thorough=2000, shards=2, jax=True,
         rule="all non-trivial (composed): one or two chained forward models, holomorphic complex model, "
         "Cholesky-type covariance model"),
     Sub(name="sum", check=check_sum, strategy=sum_recipes, quick=30, thorough=1500, shards=2, jax=True,
